@@ -90,7 +90,9 @@ let run_s (f : string list) : string =
       let (st', evs) = c_step true !st o in
       let kvs = c_kvlog evs in
       let before = List.length !log in
-      log := !log @ kvs;
+      (* the event epoch and the group counter keys are property C12's: not counted (harness: foreign_key) *)
+      let foreign = function KStore (k, _) | KRemove k -> k = ni 257 || k = ni 269 in
+      log := !log @ List.filter (fun o -> not (foreign o)) kvs;
       let fin = List.length !log in
       (* position of the answer among the events *)
       let rec ackpos i = function
